@@ -342,8 +342,10 @@ def run_harness(ctx, h):
         env["VERIF_SEED"] = str(ctx.replay.get("seed", ctx.seed))
     env.update(h.env)
     rel = "./" + os.path.relpath(pkgdir, moddir) + "/"
+    # quick tier: no single harness may sit on a hang for longer than 10 minutes
+    timeout_s = min(h.timeout_s, 600) if ctx.tier == "quick" else h.timeout_s
     cmd = [h.go, "test", "-tags", "verif", "-vet=off", "-overlay", opath, "-modfile=" + os.path.join(sdir, "go.mod"),
-           "-run", "^%s$" % h.test, "-count=1", "-timeout", "%ds" % h.timeout_s] + (["-race"] if h.race else []) + h.extra_args + [rel]
+           "-run", "^%s$" % h.test, "-count=1", "-timeout", "%ds" % timeout_s] + (["-race"] if h.race else []) + h.extra_args + [rel]
     t = time.time()
     r = subprocess.run(cmd, cwd=moddir, env=env, capture_output=True, text=True)
     ctx.log("harness %s: %s -> %d (%.1fs)" % (h.name, " ".join(cmd[:2] + [rel]), r.returncode, time.time() - t))
@@ -438,6 +440,14 @@ def analyse(ctx, h, linefile, modelfile):
             for l in mkept:
                 if l.startswith("prop ") and "=FAIL" in l:
                     record_violation(ctx, h, known, "lean-oracle", l[5:], cid, alll, mall)
+    # a harness process that crashed, hung or timed out: the case it was in (flushed per case, so the last one without
+    # `end`) is the concrete replay
+    if impl and any(b[0] == "harness-run:" + h.name for b in ctx.broken):
+        cid, kept, alll = impl[-1]
+        if "end" not in alll:
+            record_violation(ctx, h, known, "crash-or-hang",
+                             "sig=%s/harness/case-did-not-complete the harness process crashed, hung or timed out inside this case" % ctx.pid,
+                             cid, alll, None)
     if nsample == 0 and impl:
         cid, kept, alll = impl[0]
         ctx.cov["samples"].append({"harness": h.name, "case": cid, "lines": alll[:60]})
